@@ -220,7 +220,7 @@ def gen_e2e():
         n = draw(st.integers(4, 12))
         mi = draw(st.integers(3, 40))
         return {"n": n, "data_seed": draw(st.integers(0, 10**6)), "opt": draw(st.sampled_from(["sgd", "adam"])),
-                "lr": draw(st.sampled_from([0.002, 0.01, 0.03])), "max_iter": mi, "patience": draw(st.integers(1, mi)),
+                "lr": draw(st.sampled_from([0.002, 0.01, 0.03, 0.08, 0.15])), "max_iter": mi, "patience": draw(st.integers(1, mi)),
                 "atol": draw(st.sampled_from([0.0, 1e-3, 0.05, 1.0])), "rtol": draw(st.sampled_from([0.0, 1e-3, 0.05])),
                 "batch": draw(st.one_of(st.none(), st.integers(2, n))), "batch_seed": draw(st.integers(1, 1000)),
                 "validation": draw(st.booleans()), "restore": draw(st.booleans()), "prune": draw(st.booleans())}
@@ -247,7 +247,8 @@ def oracle_e2e(c):
             and bool(np.all(np.isnan(hp[it + 1:]))) and bool(np.all(np.isnan(lt[it + 1:])))
         require(ok, "history:nan-padding", f"{lv.tolist()}; {det}")
     lvv, hpp, ltt = lv[: it + 1], hp[: it + 1], lt[: it + 1]
-    require(not np.any(np.isnan(lvv)) and not np.any(np.isnan(hpp)), "history:nan-inside", det)
+    if not (np.all(np.isfinite(lvv)) and np.all(np.isfinite(hpp)) and np.all(np.abs(hpp) < 1e15)):
+        return {"nt": False, "cls": ["diverged"]}   # an unstable learning rate blew up: nothing to compare
     # recorded losses are the losses of the recorded positions (independent evaluation)
     nval = len(yv) if c["validation"] else c["n"]
     for k in sorted({0, it, ib, it // 2}):
